@@ -362,10 +362,13 @@ def run_check(mod, tier, seed, replay=None):
         forbidden = scan_forbidden(mods)
         leanchecker = None
         if tier == 'thorough' and ok_props:
-            rc, out, err = sh(['lake', 'env', 'leanchecker', props_module], cwd=LEAN, timeout=3000)
-            leanchecker = (rc == 0)
-            if rc != 0:
-                obligation_failure = (None, 'leanchecker rejected ' + props_module + ': ' + (out + err)[-300:])
+            leanchecker = True
+            for lm in [props_module] + extra_modules:
+                rc, out, err = sh(['lake', 'env', 'leanchecker', lm], cwd=LEAN, timeout=3000)
+                if rc != 0:
+                    leanchecker = False
+                    obligation_failure = (None, 'leanchecker rejected ' + lm + ': ' + (out + err)[-300:])
+                    break
         # 4. driver + harness
         ok_drv, log_drv = lake_build(['dcv-driver'])
         bins, build_logs = {}, {}
@@ -540,8 +543,9 @@ def finish_evidence(mod, tier, seed, t0, theorems, discharged, axioms, gen_repor
     cov = {
         'obligations': len(theorems),
         'discharged': len(discharged),
-        'checker_cmd': f'cd /verif/lean && lake build DcVerif.Props.{prop} && lake env lean .work/audit/{prop}.lean '
-                       f'(#print axioms){" && lake env leanchecker DcVerif.Props." + prop if tier == "thorough" else ""}',
+        'checker_cmd': f'cd /verif/lean && lake build DcVerif.Props.{prop} {" ".join(getattr(mod, "EXTRA_THEOREM_MODULES", []))} && '
+                       f'lake env lean /verif/.work/audit/{prop}.lean  # #print axioms of every theorem'
+                       f'{" && lake env leanchecker <each of these modules>" if tier == "thorough" else ""}',
         'trusted_base': TRUSTED_BASE + list(getattr(mod, 'TRUSTED_EXTRA', [])),
         'theorems': [{'name': n, 'axioms': axioms.get(n)} for n, _ in theorems],
         'generated_files': gen_report,
